@@ -125,7 +125,10 @@ TReal ==
        /\ Note(api
                \cup (IF drv THEN {} ELSE {"C08.DriverContract"})
                \* (clauses that depend on the integrated trajectory carry the stepper's name)
-               \cup (IF volok THEN {} ELSE {"C08.VolumeUnchanged@" \o Rec.stepper})
+               \cup (IF volok THEN {}
+                     ELSE IF ReentrantRetry(calls, Rec.onb0, k.bump)
+                          THEN {"C08.VolumeUnchanged.AfterReentrantRetry@" \o Rec.stepper}   \* F-FIELD-3
+                          ELSE {"C08.VolumeUnchanged@" \o Rec.stepper})
                \cup (IF momok THEN {} ELSE {"C08.Oracle.MomentumMagnitude"})
                \cup (IF orc.helix => orc.hres <= orc.htol THEN {} ELSE {"C08.Oracle.HelixPosition@" \o Rec.stepper})
                \cup (IF momat THEN {} ELSE {"C08.MomentumAtEndPoint"})
